@@ -29,7 +29,9 @@ import (
 	"testing"
 
 	"github.com/ipfs/go-cid"
+	mbase "github.com/multiformats/go-multibase"
 	mh "github.com/multiformats/go-multihash"
+	"google.golang.org/protobuf/encoding/protowire"
 
 	"github.com/anyproto/any-sync/commonspace/object/accountdata"
 	"github.com/anyproto/any-sync/commonspace/object/acl/aclrecordproto"
@@ -558,6 +560,125 @@ func signedPart(pn string, body vt, key crypto.PrivKey) part {
 	return pt
 }
 
+/* ------------------------------------------------------------------ other spellings of the same value */
+
+// respellNum: other spellings of a base-36 number (what strconv.ParseUint would read as the same value)
+func respellNum(s string) []string {
+	res := []string{"0" + s}
+	for i, c := range s {
+		if c >= 'a' && c <= 'z' {
+			res = append(res, s[:i]+strings.ToUpper(string(c))+s[i+1:])
+			break
+		}
+	}
+	return res
+}
+
+// respellCid: the same content id in other multibase encodings
+func respellCid(s string) []string {
+	var res []string
+	c, err := cid.Decode(s)
+	if err != nil {
+		return nil
+	}
+	for _, b := range []mbase.Encoding{mbase.Base32Upper, mbase.Base58BTC, mbase.Base16} {
+		if v, err := c.StringOfBase(b); err == nil && v != s {
+			if d, err := cid.Decode(v); err == nil && d.Equals(c) {
+				res = append(res, v)
+			}
+		}
+	}
+	return res
+}
+
+// respellId: other spellings of a whole space id "<cid>.<base36>"
+func respellId(id string) []string {
+	i := strings.Index(id, ".")
+	if i < 0 {
+		return nil
+	}
+	var res []string
+	for _, v := range respellNum(id[i+1:]) {
+		res = append(res, id[:i]+"."+v)
+	}
+	for _, v := range respellCid(id[:i])[:1] {
+		res = append(res, v+"."+id[i+1:])
+	}
+	return res
+}
+
+func longVarint(v uint64) []byte {
+	b := protowire.AppendVarint(nil, v)
+	b[len(b)-1] |= 0x80
+	return append(b, 0x00) // one more (empty) 7-bit group: same value, not minimal
+}
+
+// respellField re-encodes field num of a marshalled message so that it decodes to the same message:
+// a non-minimal varint (value or length); an absent scalar field is written explicitly with its zero value
+func respellField(msg []byte, num protowire.Number, isBytes, explicitZero bool) ([]byte, bool) {
+	var out []byte
+	done := false
+	for b := msg; len(b) > 0; {
+		n, typ, tl := protowire.ConsumeTag(b)
+		if tl < 0 {
+			return nil, false
+		}
+		vl := protowire.ConsumeFieldValue(n, typ, b[tl:])
+		if vl < 0 {
+			return nil, false
+		}
+		if n == num && !done {
+			switch typ {
+			case protowire.VarintType:
+				v, _ := protowire.ConsumeVarint(b[tl:])
+				out = append(append(out, b[:tl]...), longVarint(v)...)
+				done = true
+			case protowire.BytesType:
+				v, _ := protowire.ConsumeBytes(b[tl:])
+				out = append(append(append(out, b[:tl]...), longVarint(uint64(len(v)))...), v...)
+				done = true
+			default:
+				out = append(out, b[:tl+vl]...)
+			}
+		} else {
+			out = append(out, b[:tl+vl]...)
+		}
+		b = b[tl+vl:]
+	}
+	if !done {
+		if !explicitZero {
+			return nil, false
+		}
+		if isBytes {
+			out = protowire.AppendVarint(protowire.AppendTag(out, num, protowire.BytesType), 0)
+		} else {
+			out = protowire.AppendVarint(protowire.AppendTag(out, num, protowire.VarintType), 0)
+		}
+	}
+	return out, true
+}
+
+// protobuf field number and kind of a struct field, from its tag `protobuf:"bytes,1,opt,..."`
+func pbNumber(m any, name string) (num protowire.Number, isBytes bool, isMessage bool) {
+	f, _ := reflect.TypeOf(m).Elem().FieldByName(name)
+	parts := strings.Split(f.Tag.Get("protobuf"), ",")
+	n, _ := strconv.Atoi(parts[1])
+	return protowire.Number(n), parts[0] == "bytes", f.Type.Kind() == reflect.Ptr || (f.Type.Kind() == reflect.Slice && f.Type.Elem().Kind() != reflect.Uint8)
+}
+
+func sameFields(a, b vt) bool {
+	for _, f := range pbFields(a) {
+		x, y := field(a, f), field(b, f)
+		if x.Kind() == reflect.Slice && x.Len() == 0 && y.Len() == 0 {
+			continue
+		}
+		if !reflect.DeepEqual(x.Interface(), y.Interface()) {
+			return false
+		}
+	}
+	return true
+}
+
 /* ------------------------------------------------------------------ field mutations */
 
 func flip(b []byte) []byte {
@@ -697,6 +818,23 @@ func render(w *world, A, B space, m mutSpec) []rendered {
 		if m.Part == "hdr" {
 			ci, oi := strings.Index(pt.Id, "."), strings.Index(ot.Id, ".")
 			cidA, sufA, cidB, sufB := pt.Id[:ci], pt.Id[ci+1:], ot.Id[:oi], ot.Id[oi+1:]
+			if m.How == "respell" {
+				var res []rendered
+				vars := respellNum(sufA)
+				if m.Field == "cid" {
+					vars = respellCid(cidA)
+				}
+				for _, v := range vars {
+					q := A.p.clone()
+					if m.Field == "cid" {
+						q.Hdr.Id = v + "." + sufA
+					} else {
+						q.Hdr.Id = cidA + "." + v
+					}
+					res = append(res, rendered{q, m.Field + ":" + v[:min(len(v), 8)]})
+				}
+				return res
+			}
 			switch {
 			case m.How == "nodot":
 				pt.Id = cidA + sufA
@@ -709,6 +847,14 @@ func render(w *world, A, B space, m mutSpec) []rendered {
 			default:
 				pt.Id = cidA + "." + sufA + "1"
 			}
+		} else if m.How == "respell" {
+			var res []rendered
+			for _, v := range respellCid(pt.Id) {
+				q := A.p.clone()
+				q.part(m.Part).Id = v
+				res = append(res, rendered{q, "id:" + v[:8]})
+			}
+			return res
 		} else if m.How == "other" {
 			pt.Id = ot.Id
 		} else {
@@ -727,7 +873,10 @@ func render(w *world, A, B space, m mutSpec) []rendered {
 		}
 		return []rendered{{p, ""}}
 	case "forge":
-		return []rendered{{forge(w, A, m.Kind), m.Kind}}
+		if strings.Contains(m.Kind, "respell") {
+			return []rendered{{forge(w, A, m.Kind, 0), m.Kind + "/0"}, {forge(w, A, m.Kind, 1), m.Kind + "/1"}}
+		}
+		return []rendered{{forge(w, A, m.Kind, 0), m.Kind}}
 	}
 	panic("unknown mutation class " + m.Class)
 }
@@ -767,6 +916,15 @@ func renderField(w *world, A, B space, m mutSpec) []rendered {
 		finish(assemble(pn, d, false, nil), "Signature")
 		return res
 	case "extra":
+		if m.How == "respell" {
+			// the envelope re-encoded: non-minimal length of the body field
+			if raw, ok := respellField(orig.Raw, 1, true, false); ok {
+				if d, err := decode(pn, raw); err == nil && sameFields(d.l1, must(decode(pn, orig.Raw)).l1) {
+					finish(raw, "envelope-length")
+				}
+			}
+			return res
+		}
 		// an unknown field appended to the envelope ...
 		d := must(decode(pn, orig.Raw))
 		finish(assemble(pn, d, false, []byte{0x78, 0x01}), "unknown-field-15")
@@ -789,6 +947,21 @@ func renderField(w *world, A, B space, m mutSpec) []rendered {
 			continue
 		}
 		d := must(decode(pn, orig.Raw))
+		if m.How == "respell" {
+			// the signed body re-encoded so that it decodes to the same message
+			num, isBytes, isMsg := pbNumber(d.l2, f)
+			body, ok := respellField(field(d.l1, l1Body(pn)).Bytes(), num, isBytes, !isMsg)
+			if !ok {
+				continue
+			}
+			l2 := newL2(pn)
+			if l2.UnmarshalVT(body) != nil || !sameFields(l2, d.l2) {
+				panic("harness: re-encoded " + pn + "." + f + " does not decode to the same message")
+			}
+			field(d.l1, l1Body(pn)).SetBytes(body)
+			finish(assemble(pn, d, false, nil), f)
+			continue
+		}
 		switch m.How {
 		case "other":
 			o := must(decode(pn, B.p.part(pn).Raw))
@@ -804,7 +977,7 @@ func renderField(w *world, A, B space, m mutSpec) []rendered {
 }
 
 // forge: parts freshly and validly signed by Mallory / by the owner himself that name A's ids
-func forge(w *world, A space, kind string) payload {
+func forge(w *world, A space, kind string, variant int) payload {
 	p := A.p.clone()
 	who := w.mallory.sign
 	if strings.Contains(kind, "owner") {
@@ -827,6 +1000,9 @@ func forge(w *world, A space, kind string) payload {
 		root.MasterKey = whoPub
 		root.Timestamp += 4242
 		root.IdentitySignature = must(who.Sign(whoRaw))
+		if kind == "both-other-aclrespellspace" {
+			root.SpaceId = respellId(A.p.Hdr.Id)[variant%2]
+		}
 		if kind == "both-other-wrongspace" || kind == "both-other-aclwrongspace" {
 			root.SpaceId = alterString(A.p.Hdr.Id)
 		}
@@ -854,7 +1030,12 @@ func forge(w *world, A space, kind string) payload {
 		if strings.HasSuffix(kind, "wrongspace") && kind != "both-other-aclwrongspace" {
 			ch.SpaceId = alterString(A.p.Hdr.Id)
 		}
+		if strings.HasSuffix(kind, "respellspace") && kind != "both-other-aclrespellspace" {
+			ch.SpaceId = respellId(A.p.Hdr.Id)[variant%2]
+		}
 		switch {
+		case strings.HasSuffix(kind, "respellhead"):
+			ch.AclHeadId = respellCid(p.Acl.Id)[variant%2]
 		case strings.HasSuffix(kind, "wronghead"):
 			ch.AclHeadId = alterString(ch.AclHeadId)
 		default:
@@ -992,6 +1173,9 @@ func runCases(t *testing.T, rep *vfutil.Report, cases []tlcCase, svcOut *json.En
 				continue
 			}
 			rep.Case(fmt.Sprintf("%s/%s/%s/%s/%s", cs.Ca, cs.Entry, cs.Ident, cs.Mut.key(), r.label))
+			if cs.Mut.How == "respell" || strings.Contains(cs.Mut.Kind, "respell") {
+				rep.AddExtra("respelled_cases", 1)
+			}
 			rep.AddSteps(1)
 			f := computeFacts(r.p)
 			var v verdict
